@@ -150,3 +150,145 @@ def gen_warm_op(rng, cur):
         rng.shuffle(keys)
     q = rng.choice([0.0, 0.25, 0.5, 0.75, 1.0, rng.random()])
     return ("warm", keys, gen_features(rng, keys), float(q))
+
+# ---------------------------------------------------------------- contextual cases
+LIN_KINDS = ["lingreedy", "linucb", "lints"]
+NP_KINDS = ["radius", "knearest", "lsh", "clusters", "tree"]
+METRICS = ["cityblock", "chebyshev", "sqeuclidean", "euclidean"]
+
+def gen_lin_lp(rng, kind, scale_ok=True):
+    l2 = rng.choice([0.25, 0.5, 1.0, 1.0, 2.0, 4.0, 10.0])
+    scale = scale_ok and rng.random() < 0.2
+    if kind == "lingreedy":
+        return (kind, rng.choice([0.0, 0.0, 0.0, 0.25]), l2, scale, True)
+    if kind == "linucb":
+        return (kind, rng.choice([0.0, 0.5, 1.0, 1.25]), l2, scale, True)
+    return (kind, rng.choice([1.0, 0.5, 1e-9, 2.0]), l2, scale, True)
+
+def grid_dist(metric, u, v):
+    d = [abs(a - b) for a, b in zip(u, v)]
+    if metric == "cityblock": return float(sum(d))
+    if metric == "chebyshev": return float(max(d))
+    if metric == "sqeuclidean": return float(sum(x * x for x in d))
+    return math.sqrt(sum(x * x for x in d))
+
+def gen_ctx_case(rng, lps=None, nps=None, max_ops=6, max_rows=30, arm_changes=True, warm=False, label=None,
+                 reward_styles=None, queries=True, grid=4, force_dim=None):
+    npk = rng.choice(nps if nps is not None else ["none"] + NP_KINDS)
+    if lps is None:
+        lps = CF_KINDS + LIN_KINDS if npk != "none" else LIN_KINDS
+    allowed = list(lps)
+    if npk == "tree":
+        allowed = [k for k in allowed if k in ("greedy", "ucb", "thompson")] or ["ucb"]
+    if npk == "clusters":
+        allowed = [k for k in allowed if k != "popularity"] or ["ucb"]
+    if npk != "none":
+        allowed = [k for k in allowed if k != "lints"] or ["linucb"]   # finding D8: LinTS under a neighbourhood policy
+    kind = rng.choice(allowed)
+    n_arms = rng.randint(2, 4)
+    arms = rng.sample(range(0, 9), n_arms)
+    d = force_dim or rng.randint(1, 4)
+    is_lin = kind in LIN_KINDS
+    binz = None
+    if is_lin:
+        lp = gen_lin_lp(rng, kind, scale_ok=(npk == "none"))
+        style = rng.choice(reward_styles or ["dyadic", "smallint", "float"])
+    elif kind == "thompson":
+        style = "binary"
+        if rng.random() < 0.3:
+            binz = gen_binz(rng, arms); style = rng.choice(["dyadic", "smallint"])
+        lp = (kind, binz)
+    else:
+        lp = (kind, gen_hp(rng, kind)) if kind in ("greedy", "ucb", "softmax") else (kind,)
+        style = rng.choice(reward_styles or (["nonneg_dyadic", "binary"] if kind == "popularity" else ["dyadic", "smallint", "float", "binary"]))
+    if npk == "lsh" and style == "float":
+        style = "dyadic"
+    if npk == "tree" and kind == "greedy":
+        lp = (kind, rng.choice([0.0, 0.0, 0.3]))
+    draw = reward_stream(rng, style)
+    # neighbourhood parameters
+    first_rows = rng.randint(3, max_rows)
+    if npk == "radius":
+        metric = rng.choice(METRICS)
+        npol = ["radius", None, metric, None]
+    elif npk == "knearest":
+        npol = ["knearest", rng.randint(1, min(5, first_rows)), rng.choice(METRICS)]
+    elif npk == "lsh":
+        npol = ["lsh", rng.randint(1, 6), rng.randint(1, 3), None]
+    elif npk == "clusters":
+        npol = ["clusters", rng.randint(2, 3), rng.random() < 0.25]
+        first_rows = max(first_rows, 6)
+    elif npk == "tree":
+        npol = ["tree", rng.choice([{}, {}, {"max_depth": 2}, {"min_samples_leaf": 2}, {"max_depth": 1}]), (True, True)]
+    else:
+        npol = None
+    cur = list(arms); removed = []; next_arm = 9
+    ops = []
+    stored = []
+    def batch(n):
+        ds, rs = gen_batch(rng, cur, n, draw)
+        cx = gen_ctx(rng, n, d, 0, grid)
+        return ds, rs, cx
+    ds, rs, cx = batch(first_rows)
+    if npk == "clusters":
+        # make sure there are enough distinct points
+        for i in range(min(len(cx), 4)):
+            cx[i] = [float((i * 3 + j) % (grid + 1)) for j in range(d)]
+            cx[i][0] = float(i % (grid + 1))
+    ops.append(("fit", ds, rs, cx)); stored += cx
+    if npk == "radius":
+        q = gen_ctx(rng, 1, d, 0, grid)[0]
+        cand = sorted(set(grid_dist(npol[2], c, q) for c in stored) | {0.5})
+        r = rng.choice([c for c in cand if c > 0] or [1.0])
+        npol[1] = float(r)
+        if rng.random() < 0.3:
+            p = [rng.random() for _ in arms]
+            if rng.random() < 0.5:
+                p[rng.randrange(len(p))] = 0.0
+            tot = sum(p); npol[3] = [x / tot for x in p]
+    if npk == "lsh" and rng.random() < 0.3:
+        p = [rng.random() for _ in arms]; tot = sum(p); npol[3] = [x / tot for x in p]
+    n_ops = rng.randint(1, max_ops)
+    fixed_arms = npol is not None and npol[0] in ("radius", "lsh") and npol[3] is not None
+    for _ in range(n_ops):
+        c = rng.random()
+        if c < 0.3:
+            ds, rs, cx = batch(rng.choice([1, 1, 2, rng.randint(1, max_rows)]))
+            ops.append(("pfit", ds, rs, cx)); stored += cx
+        elif c < 0.36 and not (is_lin and lp[3]):
+            ds, rs, cx = batch(rng.randint(max(3, (npol[1] if npk in ("knearest",) else 3)), max_rows) if npk != "clusters" else rng.randint(6, max_rows))
+            if npk == "clusters":
+                for i in range(min(len(cx), 4)):
+                    cx[i] = [float((i * 2 + j) % (grid + 1)) for j in range(d)]; cx[i][0] = float(i % (grid + 1))
+            ops.append(("fit", ds, rs, cx)); stored = list(cx)
+        elif c < 0.48 and arm_changes and not fixed_arms:
+            if removed and rng.random() < 0.5:
+                a = removed.pop(rng.randrange(len(removed)))
+            else:
+                a = next_arm; next_arm += 1
+            ops.append(("add", a, None)); cur.append(a)
+        elif c < 0.56 and arm_changes and len(cur) > 2 and not fixed_arms:
+            a = rng.choice(cur); cur.remove(a); removed.append(a)
+            ops.append(("rem", a))
+        elif c < 0.62 and warm and npk == "none" and len(cur) >= 2:
+            ops.append(gen_warm_op(rng, cur))
+        elif queries:
+            m = rng.choice([1, 1, 2, 3, 5])
+            q = []
+            for _ in range(m):
+                z = rng.random()
+                if z < 0.4 and stored:
+                    q.append(list(rng.choice(stored)))
+                elif z < 0.5 and stored and npk == "lsh":
+                    q.append([2.0 * v for v in rng.choice(stored)])
+                elif z < 0.6:
+                    q.append([float(grid + 20 + rng.randint(0, 3))] * d if npk != "lsh" else [-float(rng.randint(1, 9)) for _ in range(d)])
+                else:
+                    q.append(gen_ctx(rng, 1, d, 0, grid)[0])
+            ops.append((rng.choice(["pred", "pexp", "pexp"]), q))
+    if queries:
+        ops.append(("pexp", gen_ctx(rng, 2, d, 0, grid)))
+        ops.append(("pred", [list(rng.choice(stored))]))
+    return {"arms": arms, "lp": lp, "np": None if npol is None else tuple(npol), "seed": rng.randint(0, 2**31 - 2), "ops": ops,
+            "label": label or rng.choice(["int", "str", "float", "int"]), "mode": "tol" if is_lin else "exact",
+            "reward_style": style}
